@@ -36,51 +36,71 @@ def combi_exhaustive(r):
                      len(cases), len(cases), True, failures=bad)
 
 
-def l3(r):
+def l3_child(rec):
+    """the API drive itself (child process): returns what the monitors saw"""
     from props import apidrive
-    t0 = time.time()
-    try:
-        apidrive.setup()
-        mons = cm.install_monitors()
-    except Exception:
-        r.broken.append('L3 set-up failed: ' + traceback.format_exc()[-1500:]); return
-    rng = random.Random(r.seed)
+    from vf import child
+    apidrive.setup()
+    mons = cm.install_monitors()
+    rng = random.Random(rec.seed)
     p = apidrive.Probe()
+    p.progress = child.progress
     from props.monitors import quiet
+    crashed = None
     try:
-        if r.tier == 'quick':
+        if rec.tier == 'quick':
             apidrive.LENGTHS[:] = [0, 1, 2, 5]
             apidrive.QUICK[0] = True
         quiet(apidrive.drive_data, p, rng); quiet(apidrive.drive_stat, p, rng); quiet(apidrive.drive_gis, p, rng)
     except Exception:
-        r.broken.append('L3 driver crashed: ' + traceback.format_exc()[-1500:])
+        crashed = 'L3 driver crashed: ' + traceback.format_exc()[-1500:]
     checked = sum(m.checked for m in mons)
+    return dict(kpv=p.kpv, labels=sorted(p.labels), calls=p.calls, pyexc=p.pyexc, ok=p.ok, checked=checked, crashed=crashed)
+
+
+def l3(r):
+    from vf import child
+    t0 = time.time()
+    res = child.run('props.C05', 'l3_child', r.prop, r.tier, r.seed)
+    child.merge(r, res['recorder'])
+    out = res['payload']
+    if res['signal'] or (res['rc'] != 0 and out is None):
+        if res['signal']:
+            r.violation(dict(function='interpreter', kind='crash', where=res['progress'].split('|')[0][:120]),
+                        'the python interpreter was brought down (%s) by the public API call %s (kernel preconditions held on entry: the kernel itself is unsafe); %s'
+                        % (child.signame(res['signal']), res['progress'], res['stderr'][-300:].replace('\n', ' ')),
+                        witness=dict(python=True, source='L3 API drive in a child process', api_call=res['progress'], signal=child.signame(res['signal']), stderr=res['stderr'][-1500:]))
+        else:
+            r.broken.append('L3 child process failed (rc=%s) at %s: %s' % (res['rc'], res['progress'], res['stderr'][-1500:]))
+        return
+    if out is None:
+        r.broken.append('L3 child returned nothing: ' + res['stderr'][-1500:]); return
+    if out['crashed']:
+        r.broken.append(out['crashed'])
     # replay every firing monitor on the real kernel under ASan/UBSan
     confirmed = 0; seen = set()
-    for k in p.kpv:
+    for k in out['kpv']:
         key = (k['api'].split('|')[0], k['kernel'], k['clause'])
         if key in seen:
             continue
         seen.add(key)
         rel = cm.KERNEL_FILE[k['kernel']]
         h = r.harness(group_of(rel))
-        res = h.run([(k['kernel'], k['args'])])[0]
-        if res.get('san') or res.get('crashed') or res.get('timeout'):
+        res1 = h.run([(k['kernel'], k['args'])])[0]
+        if res1.get('san') or res1.get('crashed') or res1.get('timeout'):
             confirmed += 1
             r.violation(dict(api=key[0], kernel=k['kernel'], kind='safety', clause=k['clause'][:160]),
                         'public API call %s enters %s outside its requires (%s); replay on the real kernel under ASan/UBSan: %s'
-                        % (k['api'], k['kernel'], k['clause'][:120], (res.get('san') or 'timeout')[:200].replace('\n', ' ')),
-                        witness=dict(function=k['kernel'], file=rel, args=k['args'], api=k['api'], observed=dict(sanitizer=res.get('san', '')[:1500])))
+                        % (k['api'], k['kernel'], k['clause'][:120], (res1.get('san') or 'timeout')[:200].replace('\n', ' ')),
+                        witness=dict(function=k['kernel'], file=rel, args=k['args'], api=k['api'], observed=dict(sanitizer=res1.get('san', '')[:1500])))
         else:
             r.notes.append('L3: %s enters %s outside the stated requires (%s) but the sanitizers report nothing: requires stronger than needed, not a violation'
                            % (key[0], k['kernel'], k['clause'][:100]))
-    for m in mons:
-        m.uninstall()
     r.bounded_clause('L3: public Python API driven over boundary shapes (lengths 0,1,2,3,..,17), value classes (finite, NaN, +-inf, negative, huge) and option extremes; '
                      'kernel requires evaluated on the actual arguments before every kernel entry',
-                     '%d API functions, %d API calls, %d kernel entries checked' % (len(p.labels), p.calls, checked),
-                     p.calls, checked, False, failures=confirmed,
-                     extra=dict(api_functions=sorted(p.labels), python_exceptions=p.pyexc, returned_normally=p.ok, monitor_fired=len(p.kpv), wall_s=round(time.time() - t0, 1)))
+                     '%d API functions, %d API calls, %d kernel entries checked' % (len(out['labels']), out['calls'], out['checked']),
+                     out['calls'], out['checked'], False, failures=confirmed,
+                     extra=dict(api_functions=out['labels'], python_exceptions=out['pyexc'], returned_normally=out['ok'], monitor_fired=len(out['kpv']), wall_s=round(time.time() - t0, 1)))
 
 
 def run(tier):
